@@ -2,7 +2,7 @@
 `combos` (= itertools.combinations): membership, duplicate-freeness, length; sorted sublists of
 an index range; indexed enumerations (`zipIdx`).
 -/
-import Lemmas.FamBasic
+import Lemmas.C01Basic
 import Mathlib.Data.List.Basic
 import Mathlib.Data.List.Nodup
 import Mathlib.Data.Nat.Choose.Basic
